@@ -575,27 +575,29 @@ func (cs *connState) handleRequest() bool {
 		return true
 	}
 
-	// Try to start the tag.
-	if !cs.StartTag(tag) {
-		cs.server.log.Printf("no valid tag [%05d]", tag)
-		// Nothing we can do at this point; client is bogus.
-		return true
-	}
-
-	// Handle the message.
+	// A Tflush runs no backend call and is not itself flushable: it is
+	// handled without registering its tag. Flushes that name each other (or
+	// themselves) therefore never wait on one another; a flush of a flush
+	// is answered at once, like a flush of any tag that is not in flight.
 	var r message
-	if f, ok := m.(*tflush); ok && f.OldTag == tag {
-		// A flush naming its own tag has nothing to wait for: waiting on
-		// the tag we just started would never return.
-		r = &rflush{}
-	} else {
+	if _, ok := m.(*tflush); ok {
 		r = cs.handle(m)
-	}
+	} else {
+		// Try to start the tag.
+		if !cs.StartTag(tag) {
+			cs.server.log.Printf("no valid tag [%05d]", tag)
+			// Nothing we can do at this point; client is bogus.
+			return true
+		}
 
-	// Clear the tag before sending. That's because as soon as this
-	// hits the wire, the client can legally send another message
-	// with the same tag.
-	cs.ClearTag(tag)
+		// Handle the message.
+		r = cs.handle(m)
+
+		// Clear the tag before sending. That's because as soon as this
+		// hits the wire, the client can legally send another message
+		// with the same tag.
+		cs.ClearTag(tag)
+	}
 
 	// Send back the result.
 	cs.sendMu.Lock()
